@@ -212,6 +212,9 @@ type matchCfg struct {
 	forcePos bool
 	// nth: field ranges the search is restricted to (the terminal's current --nth / change-nth value)
 	nth []Range
+	// schemeLast: --scheme was given after --tiebreak, so the tiebreak the scheme implies is in force
+	// (man page: path sets --tiebreak=pathname,length, history sets --tiebreak=index)
+	schemeLast bool
 }
 
 // install sets the process-wide matching state the way option post-processing does.
@@ -241,6 +244,15 @@ func genMatchCfg(r *zsim.Rng) matchCfg {
 }
 
 func (m matchCfg) criteria() []criterion {
+	if m.schemeLast {
+		switch ((m.Scheme % 3) + 3) % 3 {
+		case 1:
+			return []criterion{byScore, byPathname, byLength}
+		case 2:
+			return []criterion{byScore}
+		}
+		return []criterion{byScore, byLength}
+	}
 	out := []criterion{byScore}
 	seen := map[int]bool{}
 	for _, c := range m.Criteria {
@@ -317,6 +329,9 @@ func rankLess(a, b oracleRes, tac bool) bool {
 // freshFilter: fresh pattern, fresh caches, fresh items, fresh scratch memory,
 // one goroutine, one global sort.
 func freshFilter(items []frozenItem, q string, m matchCfg) []oracleRes {
+	// the reference uses the tiebreak list and scheme the plan asked for, not whatever the option parser of
+	// the system under test has left in the process-wide settings
+	m.install()
 	pat := m.pattern(NewChunkCache(), map[string]*Pattern{}, revision{}, q, false)
 	var out []oracleRes
 	if pat.IsEmpty() {
